@@ -118,8 +118,8 @@ Proof.
         -- destruct (Nat.eqb_spec bs 1) as [Eb|Eb]; [exfalso; lia|]. reflexivity.
     + (* k > 0 *) apply Z.leb_gt in E1. replace (k <? 0)%Z with false by (symmetry; apply Z.ltb_ge; lia).
       set (kk := Z.to_nat k). assert (Hkk : (1 <= kk)%nat) by (unfold kk; lia). assert (Ek : k = Z.of_nat kk) by (unfold kk; lia).
-      set (a := (i - kk)%nat). set (b := Nat.min (i + bs) n). set (w := (b - a)%nat).
       set (C := slice_cols (mkarr n n eye) (i - kk) (i + bs)).
+      set (a := (i - kk)%nat). set (b := Nat.min (i + bs) n). set (w := (b - a)%nat).
       assert (HC : nc C = w) by (unfold C, slice_cols, w, a, b; cbn [nc nr dat]; rewrite (Nat.min_l (i - kk) n) by lia; reflexivity).
       assert (HD : forall r c, dat C r c = delta r (a + c)%nat) by (intros; unfold C, slice_cols, a; cbn [nc nr dat]; rewrite (Nat.min_l (i - kk) n) by lia; reflexivity).
       assert (Hw : (1 <= w <= bs + kk)%nat) by (unfold w, a, b; lia).
@@ -134,7 +134,7 @@ Proof.
       assert (HSh : nc Sh = bs) by (unfold Sh, slice_cols, P; cbn [nc]; lia).
       assert (HShD : forall r c, dat Sh r c = if (off <=? c)%nat then delta r (a + (c - off))%nat else r0).
       { intros. unfold Sh, slice_cols, P. cbn [dat nc Nat.min plus]. rewrite HD. reflexivity. }
-      rewrite (Nat.min_l (i - kk) n) by lia. fold a. rewrite HC.
+      rewrite (Nat.min_l a n) by (unfold a; lia). rewrite ?HC.
       destruct (Hmul (a + (w - Nat.min bs w))%nat Ch eq_refl) as (N1 & N2); [rewrite HCh; unfold w, a, b; lia | intros; rewrite HChD; reflexivity|].
       unfold bmul_sum. rewrite N1, HCh, HSh.
       assert (Hzero : forall r, (r < n)%nat -> ~ (a <= r /\ r + kk < b /\ i <= r + kk)%nat -> pick i bs n r k M = r0).
@@ -161,4 +161,195 @@ Proof.
         -- exfalso. unfold w, a, b in *. lia.
         -- destruct (Nat.eqb_spec bs 1) as [Eb|Eb]; [exfalso; lia|]. reflexivity.
 Qed.
+
+(* ---------- range(0, n, bs) and the sum over the blocks *)
+Lemma chunk_starts_lt fuel i0 bs n i : In i (chunk_starts fuel i0 bs n) -> (i < n)%nat.
+Proof. revert i0. induction fuel as [|f IH]; intros i0; cbn [chunk_starts]; [intros []|].
+  destruct (i0 <? n)%nat eqn:E; [|intros []]. apply Nat.ltb_lt in E. intros [<-|H]; [exact E|eauto]. Qed.
+Lemma chunk_starts_in fuel i0 bs n i : (1 <= bs)%nat -> (n - i0 < fuel)%nat ->
+  (In i (chunk_starts fuel i0 bs n) <-> exists t, i = (i0 + t * bs)%nat /\ (i < n)%nat).
+Proof. intros Hbs. revert i0. induction fuel as [|f IH]; intros i0 Hf; [lia|]. cbn [chunk_starts].
+  destruct (i0 <? n)%nat eqn:E.
+  - apply Nat.ltb_lt in E. cbn [In]. rewrite IH by lia. split.
+    + intros [<-|(t & -> & Ht)]; [exists 0%nat; lia|exists (S t); lia].
+    + intros ([|t] & -> & Ht); [left; lia|right; exists t; lia].
+  - apply Nat.ltb_ge in E. cbn [In]. split; [tauto|]. intros (t & -> & Ht). lia. Qed.
+Lemma fold_blocks fuel i0 bs n r k (M : fm) acc : (1 <= bs)%nat -> (n - i0 < fuel)%nat ->
+  fold_left (fun a i => a + pick i bs n r k M) (chunk_starts fuel i0 bs n) acc
+  = acc + (if ((Z.of_nat i0 <=? Z.of_nat r + k)%Z && (Z.of_nat r + k <? Z.of_nat n)%Z)%bool then M r (Z.to_nat (Z.of_nat r + k)) else r0).
+Proof. intros Hbs. revert i0 acc. induction fuel as [|f IH]; intros i0 acc Hf; [lia|]. cbn [chunk_starts].
+  destruct (i0 <? n)%nat eqn:E.
+  - apply Nat.ltb_lt in E. cbn [fold_left]. rewrite IH by lia. unfold pick.
+    set (c := (Z.of_nat r + k)%Z). set (v := M r (Z.to_nat c)).
+    destruct ((Z.of_nat i0 <=? c)%Z && (c <? Z.of_nat (Nat.min (i0 + bs) n))%Z) eqn:E1;
+    destruct ((Z.of_nat (i0 + bs) <=? c)%Z && (c <? Z.of_nat n)%Z) eqn:E2;
+    destruct ((Z.of_nat i0 <=? c)%Z && (c <? Z.of_nat n)%Z) eqn:E3; try ring; exfalso;
+    repeat match goal with
+           | H : (_ && _)%bool = true |- _ => apply andb_prop in H as [? ?]
+           | H : (_ && _)%bool = false |- _ => apply andb_false_iff in H
+           | H : (_ <=? _)%Z = true |- _ => apply Z.leb_le in H
+           | H : (_ <? _)%Z = true |- _ => apply Z.ltb_lt in H
+           end; rewrite ?Z.leb_gt, ?Z.ltb_ge in *; lia.
+  - apply Nat.ltb_ge in E. cbn [fold_left].
+    destruct ((Z.of_nat i0 <=? Z.of_nat r + k)%Z && (Z.of_nat r + k <? Z.of_nat n)%Z) eqn:E3; [|ring].
+    apply andb_prop in E3 as [A B']. apply Z.leb_le in A. apply Z.ltb_lt in B'. lia. Qed.
+
+Definition contrib_of (n bs : nat) (mul : nat -> arr -> arr) (k : Z) (i : nat) : option (nat -> R) :=
+  match get_I_chunk_like n i bs k with None => None | Some (C, Sh, a0) => bmul_sum (mul a0 C) Sh end.
+Lemma contrib_of_spec n bs i k M mul : col_oracle n M mul -> (1 <= bs <= n)%nat -> (i < n)%nat ->
+  match contrib_of n bs mul k i with
+  | None => chunk_bad n bs i k = true
+  | Some f => chunk_bad n bs i k = false /\ forall r, (r < n)%nat -> f r = pick i bs n r k M
+  end.
+Proof. intros Hmul Hbs Hi. pose proof (contrib_spec n bs i k M mul Hmul Hbs Hi) as Hc. unfold contrib_of.
+  destruct (get_I_chunk_like n i bs k) as [[[C Sh] a0]|]; [exact Hc|contradiction]. Qed.
+Lemma contribs_fold n bs k M mul l r acc : col_oracle n M mul -> (1 <= bs <= n)%nat -> (forall i, In i l -> (i < n)%nat) -> (r < n)%nat ->
+  existsb (fun i => chunk_bad n bs i k) l = false ->
+  forallb is_some (map (contrib_of n bs mul k) l) = true /\
+  fold_left (fun a o => match o with Some f => a + f r | None => a end) (map (contrib_of n bs mul k) l) acc
+  = fold_left (fun a i => a + pick i bs n r k M) l acc.
+Proof. intros Hmul Hbs Hl Hr. revert acc. induction l as [|i l IH]; intros acc Hb; [split; reflexivity|].
+  cbn [existsb] in Hb. apply orb_false_iff in Hb as [Hb1 Hb2].
+  pose proof (contrib_of_spec n bs i k M mul Hmul Hbs (Hl i (or_introl eq_refl))) as Hc.
+  cbn [map forallb fold_left]. destruct (contrib_of n bs mul k i) as [f|]; [|congruence]. destruct Hc as [_ Hf].
+  destruct (IH (fun j Hj => Hl j (or_intror Hj)) (acc + f r) Hb2) as [I1 I2]. cbn [is_some andb]. split; [exact I1|].
+  rewrite I2, Hf by exact Hr. reflexivity. Qed.
+Lemma contribs_bad n bs k M mul l : col_oracle n M mul -> (1 <= bs <= n)%nat -> (forall i, In i l -> (i < n)%nat) ->
+  existsb (fun i => chunk_bad n bs i k) l = true -> forallb is_some (map (contrib_of n bs mul k) l) = false.
+Proof. intros Hmul Hbs Hl. induction l as [|i l IH]; intros Hb; [discriminate|]. cbn [existsb] in Hb. cbn [map forallb].
+  pose proof (contrib_of_spec n bs i k M mul Hmul Hbs (Hl i (or_introl eq_refl))) as Hc.
+  destruct (contrib_of n bs mul k i) as [f|]; [|reflexivity]. destruct Hc as [Hc _]. rewrite Hc in Hb. cbn [orb] in Hb.
+  cbn [is_some andb]. apply IH; auto. intros j Hj. apply Hl. right. exact Hj. Qed.
+
+(* ===== exact_diag: the true diagonal, or an error exactly when some block cannot be broadcast ===== *)
+Theorem exact_diag_spec B n k (M : fm) mul : col_oracle n M mul -> (1 <= B)%nat -> (1 <= n)%nat ->
+  exact_diag B n mul k =
+    if existsb (fun i => chunk_bad n (Nat.min B n) i k) (chunk_starts (S n) 0 (Nat.min B n) n) then None
+    else Some (true_diag n n M k).
+Proof. intros Hmul HB Hn. unfold exact_diag. set (bs := Nat.min B n). assert (Hbs : (1 <= bs <= n)%nat) by (unfold bs; lia).
+  set (l := chunk_starts (S n) 0 bs n). assert (Hl : forall i, In i l -> (i < n)%nat) by (intros i; apply chunk_starts_lt).
+  change (map (fun i => match get_I_chunk_like n i bs k with None => None | Some (C, Sh, a0) => bmul_sum (mul a0 C) Sh end) l)
+    with (map (contrib_of n bs mul k) l).
+  destruct (existsb (fun i => chunk_bad n bs i k) l) eqn:Eb.
+  - rewrite (contribs_bad n bs k M mul l Hmul Hbs Hl Eb). reflexivity.
+  - assert (Hsome : forallb is_some (map (contrib_of n bs mul k) l) = true).
+    { destruct (contribs_fold n bs k M mul l 0%nat r0 Hmul Hbs Hl ltac:(lia) Eb) as [H _]. exact H. }
+    rewrite Hsome. f_equal. unfold true_diag.
+    assert (Hsum : forall r, (r < n)%nat ->
+       fold_left (fun a o => match o with Some f => a + f r | None => a end) (map (contrib_of n bs mul k) l) r0
+       = if ((0 <=? Z.of_nat r + k)%Z && (Z.of_nat r + k <? Z.of_nat n)%Z)%bool then M r (Z.to_nat (Z.of_nat r + k)) else r0).
+    { intros r Hr. destruct (contribs_fold n bs k M mul l r r0 Hmul Hbs Hl Hr Eb) as [_ ->]. unfold l.
+      rewrite fold_blocks by lia. change (Z.of_nat 0) with 0%Z. ring. }
+    destruct (k <=? 0)%Z eqn:Ek.
+    + apply Z.leb_le in Ek. destruct (0 <=? k)%Z eqn:Ek0.
+      * apply Z.leb_le in Ek0. assert (k = 0%Z) by lia. subst k. cbn [Z.abs Z.to_nat]. rewrite Nat.sub_0_r, Nat.min_id.
+        apply map_ext_in. intros t Ht. apply in_seq in Ht. cbn [plus]. rewrite Hsum by lia.
+        rewrite Z.add_0_r. replace ((0 <=? Z.of_nat t)%Z && (Z.of_nat t <? Z.of_nat n)%Z) with true by (symmetry; apply andb_true_intro; split; [apply Z.leb_le|apply Z.ltb_lt]; lia).
+        rewrite Nat2Z.id, Nat.add_0_r. reflexivity.
+      * apply Z.leb_gt in Ek0. replace (Z.to_nat (Z.abs k)) with (Z.to_nat (- k)) by lia. set (kk := Z.to_nat (- k)).
+        replace (Nat.min (n - kk) n) with (n - kk)%nat by lia.
+        apply map_ext_in. intros t Ht. apply in_seq in Ht. rewrite Hsum by lia.
+        replace ((0 <=? Z.of_nat (kk + t) + k)%Z && (Z.of_nat (kk + t) + k <? Z.of_nat n)%Z) with true
+          by (symmetry; apply andb_true_intro; split; [apply Z.leb_le|apply Z.ltb_lt]; unfold kk; lia).
+        f_equal; unfold kk; lia.
+    + apply Z.leb_gt in Ek. replace (0 <=? k)%Z with true by (symmetry; apply Z.leb_le; lia).
+      replace (Z.to_nat (Z.abs k)) with (Z.to_nat k) by lia. set (kk := Z.to_nat k).
+      replace (Nat.min n (n - kk)) with (n - kk)%nat by lia.
+      apply map_ext_in. intros t Ht. apply in_seq in Ht. rewrite Hsum by lia.
+      replace ((0 <=? Z.of_nat t + k)%Z && (Z.of_nat t + k <? Z.of_nat n)%Z) with true
+        by (symmetry; apply andb_true_intro; split; [apply Z.leb_le|apply Z.ltb_lt]; unfold kk in *; lia).
+      f_equal. unfold kk. lia.
+Qed.
+
+(* ---------- some block is bad  <->  ragged *)
+Lemma bad_iff_ragged B n k : (1 <= B)%nat -> (1 <= n)%nat ->
+  existsb (fun i => chunk_bad n (Nat.min B n) i k) (chunk_starts (S n) 0 (Nat.min B n) n) = ragged B n k.
+Proof. intros HB Hn. set (bs := Nat.min B n). assert (Hbs : (1 <= bs <= n)%nat) by (unfold bs; lia).
+  apply eq_true_iff_eq. rewrite existsb_exists. split.
+  - intros (i & Hin & Hbad). apply chunk_starts_in in Hin as (t & Hi & Hlt); [|lia|lia]. cbn [plus] in Hi.
+    unfold chunk_bad in Hbad. destruct (k =? 0)%Z eqn:E0; [discriminate|]. apply Z.eqb_neq in E0.
+    unfold ragged. destruct (k <? 0)%Z eqn:Ek.
+    + apply Z.ltb_lt in Ek. set (k' := Z.to_nat (- k)) in *. assert (1 <= k')%nat by (unfold k'; lia).
+      apply andb_prop in Hbad as [H1 H2]. apply negb_true_iff in H1, H2. apply Nat.eqb_neq in H1, H2.
+      assert (Hw : (i + bs > n)%nat) by lia. assert (Hr : (2 <= n - i < bs)%nat) by lia.
+      assert (HBn : (B < n)%nat).
+      { destruct (le_lt_dec n B) as [Hle|Hgt]; [|exact Hgt]. exfalso. assert (Ebn : bs = n) by (unfold bs; lia). destruct t as [|t']; [lia|]. rewrite Ebn in *. nia. } assert (Ebs : bs = B) by (unfold bs; lia). rewrite Ebs in *.
+      assert (Emod : (n mod B = n - i)%nat). { symmetry. apply Nat.mod_unique with (q := t); lia. }
+      rewrite Emod. replace (B <? n)%nat with true by (symmetry; apply Nat.ltb_lt; lia).
+      replace (Nat.eqb (n - i) 0) with false by (symmetry; apply Nat.eqb_neq; lia).
+      replace (2 <=? n - i)%nat with true by (symmetry; apply Nat.leb_le; lia). reflexivity.
+    + apply Z.ltb_ge in Ek. set (kk := Z.to_nat k) in *. assert (1 <= kk)%nat by (unfold kk; lia).
+      apply andb_prop in Hbad as [H1 H2]. apply negb_true_iff in H1, H2. apply Nat.eqb_neq in H1, H2.
+      assert (Hw : (i + bs > n)%nat) by lia.
+      assert (HBn : (B < n)%nat).
+      { destruct (le_lt_dec n B) as [Hle|Hgt]; [|exact Hgt]. exfalso. assert (Ebn : bs = n) by (unfold bs; lia). destruct t as [|t']; [lia|]. rewrite Ebn in *. nia. } assert (Ebs : bs = B) by (unfold bs; lia). rewrite Ebs in *.
+      assert (Emod : (n mod B = n - i)%nat). { symmetry. apply Nat.mod_unique with (q := t); lia. }
+      rewrite Emod. replace (B <? n)%nat with true by (symmetry; apply Nat.ltb_lt; lia).
+      replace (Nat.eqb (n - i) 0) with false by (symmetry; apply Nat.eqb_neq; lia).
+      replace (0 <? k)%Z with true by (symmetry; apply Z.ltb_lt; lia).
+      replace (k <? Z.of_nat (B - (n - i)))%Z with true; [reflexivity|].
+      symmetry. apply Z.ltb_lt. unfold kk in *. lia.
+  - unfold ragged. intros H. apply andb_prop in H as [H Hc]. apply andb_prop in H as [HBn Hr]. apply Nat.ltb_lt in HBn.
+    apply negb_true_iff in Hr. apply Nat.eqb_neq in Hr. assert (Ebs : bs = B) by (unfold bs; lia).
+    pose proof (Nat.div_mod n B ltac:(lia)) as Hdm. pose proof (Nat.mod_upper_bound n B ltac:(lia)) as Hub.
+    set (rho := (n mod B)%nat) in *. set (q := (n / B)%nat) in *.
+    exists (q * B)%nat. split.
+    + apply chunk_starts_in; [lia|lia|]. exists q. rewrite Ebs. lia.
+    + rewrite Ebs. unfold chunk_bad. apply orb_prop in Hc as [Hc|Hc]; apply andb_prop in Hc as [Hk Hc2].
+      * apply Z.ltb_lt in Hk. apply Nat.leb_le in Hc2. replace (k =? 0)%Z with false by (symmetry; apply Z.eqb_neq; lia).
+        replace (k <? 0)%Z with true by (symmetry; apply Z.ltb_lt; lia).
+        replace (Nat.min (q * B + B + Z.to_nat (- k)) n - q * B)%nat with rho by lia.
+        replace (Nat.min B rho) with rho by lia.
+        replace (Nat.eqb rho B) with false by (symmetry; apply Nat.eqb_neq; lia).
+        replace (Nat.eqb rho 1) with false by (symmetry; apply Nat.eqb_neq; lia). reflexivity.
+      * apply Z.ltb_lt in Hk, Hc2. replace (k =? 0)%Z with false by (symmetry; apply Z.eqb_neq; lia).
+        replace (k <? 0)%Z with false by (symmetry; apply Z.ltb_ge; lia).
+        assert (Hq : (1 <= q)%nat) by nia.
+        replace (Nat.min (q * B + B) n - (q * B - Z.to_nat k))%nat with (rho + Z.to_nat k)%nat by nia.
+        replace (Nat.min B (rho + Z.to_nat k)) with (rho + Z.to_nat k)%nat by lia.
+        replace (Nat.eqb (rho + Z.to_nat k) B) with false by (symmetry; apply Nat.eqb_neq; lia).
+        replace (Nat.eqb (rho + Z.to_nat k) 1) with false by (symmetry; apply Nat.eqb_neq; lia). reflexivity.
+Qed.
+
+Theorem exact_diag_cases B n k (M : fm) mul : col_oracle n M mul -> (1 <= B)%nat -> (1 <= n)%nat ->
+  exact_diag B n mul k = if ragged B n k then None else Some (true_diag n n M k).
+Proof. intros Hmul HB Hn. rewrite (exact_diag_spec B n k M mul Hmul HB Hn), bad_iff_ragged by assumption. reflexivity. Qed.
+Lemma true_diag_length n (M : fm) k : length (true_diag n n M k) = (n - Z.to_nat (Z.abs k))%nat.
+Proof. unfold true_diag. destruct (0 <=? k)%Z eqn:E; rewrite map_length, seq_length; [apply Z.leb_le in E|apply Z.leb_gt in E]; lia. Qed.
 End P.
+
+(* ---------- the faithful instance: the operator's own products *)
+Section OnOps.
+Context {R : Type} {RR : Ring R} {CR : CRing R}.
+Add Ring Rring2 : Rth.
+Open Scope R_scope.
+Notation op := (op (R:=R)).
+Lemma col_oracle_matmat (e : op) n : wf e = true -> shape e = (n, n) -> col_oracle n (den e) (fun _ X => matmat e X).
+Proof. intros Hwf Hs a0 X HX Hle HI.
+  destruct (proj1 (mm_den e Hwf) X) as (E1 & E2 & E3); [rewrite Hs; exact HX|]. cbn [spec nr nc dat] in E1, E2, E3. rewrite Hs in *. cbn [fst snd] in *.
+  split; [exact E2|]. intros r c Hr Hc. rewrite E3 by (rewrite ?E1, ?E2; auto). unfold mmul.
+  rewrite (sum_ext n _ (fun l => den e r l * delta l (a0 + c)%nat)) by (intros l Hl; rewrite HI by auto; reflexivity).
+  apply (sum_delta_r n (a0 + c)%nat (fun l => den e r l)). lia. Qed.
+
+(* exact_diag_correct: for ALL sizes n, block sizes B and offsets k: when the code returns, it returns the k-th diagonal of
+   the represented matrix (length n - |k|, entries den e i (i+k) resp. den e (i-k) i) *)
+Theorem exact_diag_correct (e : op) B n k d : wf e = true -> shape e = (n, n) -> (1 <= B)%nat -> (1 <= n)%nat ->
+  exact_diag B n (fun _ X => matmat e X) k = Some d ->
+  d = true_diag n n (den e) k /\ length d = (n - Z.to_nat (Z.abs k))%nat.
+Proof. intros Hwf Hs HB Hn H. rewrite (exact_diag_cases B n k (den e) _ (col_oracle_matmat e n Hwf Hs) HB Hn) in H.
+  destruct (ragged B n k); [discriminate|]. injection H as <-. split; [reflexivity|apply true_diag_length]. Qed.
+(* ... and it raises exactly on the ragged inputs *)
+Theorem exact_diag_none_iff (e : op) B n k : wf e = true -> shape e = (n, n) -> (1 <= B)%nat -> (1 <= n)%nat ->
+  (exact_diag B n (fun _ X => matmat e X) k = None <-> ragged B n k = true).
+Proof. intros Hwf Hs HB Hn. rewrite (exact_diag_cases B n k (den e) _ (col_oracle_matmat e n Hwf Hs) HB Hn).
+  destruct (ragged B n k); split; intros H; try reflexivity; discriminate. Qed.
+Theorem exact_diag_total (e : op) B n k : wf e = true -> shape e = (n, n) -> (1 <= B)%nat -> (1 <= n)%nat ->
+  ragged B n k = false -> exact_diag B n (fun _ X => matmat e X) k = Some (true_diag n n (den e) k).
+Proof. intros Hwf Hs HB Hn Hr. rewrite (exact_diag_cases B n k (den e) _ (col_oracle_matmat e n Hwf Hs) HB Hn), Hr. reflexivity. Qed.
+(* no error at all when the size is a multiple of the block size or at most one block, or on the main diagonal *)
+Lemma ragged_false_cases B n k : (n <= B)%nat \/ (n mod B = 0)%nat \/ k = 0%Z -> ragged B n k = false.
+Proof. unfold ragged. intros [H|[H|H]].
+  - replace (B <? n)%nat with false by (symmetry; apply Nat.ltb_ge; lia). reflexivity.
+  - rewrite H. cbn [Nat.eqb negb]. rewrite andb_false_r. reflexivity.
+  - subst k. cbn. rewrite !andb_false_r. reflexivity. Qed.
+End OnOps.
